@@ -392,7 +392,7 @@ impl DamerauLevenshtein {
     #[verifier::rlimit(300)]
     pub fn distance(&mut self, word1: &WordView, word2: &WordView) -> (ret: f64)
         requires old(self).wf(), word1.wf(), word2.wf(),
-        ensures final(self).wf(),
+        ensures final(self).wf(), // [C01 ALL]
             final(self).dists.size >= word1.vchars().len() + 2,
             final(self).dists.size >= word2.vchars().len() + 2,
             final(self).dists.rows_ok(word1.vchars(), word1.vclasses(), word2.vchars(), word2.vclasses(), word1.vchars().len() as int),
